@@ -13,7 +13,10 @@ import (
 // through the real PeerReader.  Observed: the decoded message sequence, how the reader stopped,
 // and whether it allocated more than the bound the property allows for that stream.
 //
-// op   stream max=<maxMsgSize> frag=<sizes> b=<chunks>      chunk = <hex> | <hex>*<count>
+// op   stream max=<maxMsgSize> frag=<sizes> b=<chunks> [cuts=<positions>]     chunk = <hex> | <hex>*<count>
+//      cuts: stream positions at which the read deadline expires once (a slow peer); the generator places them
+//      strictly inside the block of a piece message, each after at least one more byte, where the reader must
+//      carry on and deliver the block intact
 // obs  msgs=<m;m;…> end=<eof|oversize|blocksize|ext|hang> big=<0|1>
 //
 // big=1 iff the bytes allocated while the reader ran exceed allocBound(len(stream), max): room for
@@ -42,7 +45,7 @@ func execReader(ops []string) []string {
 		}
 		stream := parseChunks(m["b"])
 		max := atoi(m["max"])
-		r := runReader(stream, max, parseFrags(m["frag"]))
+		r := runReader(stream, max, parseFrags(m["frag"]), parseFrags(m["cuts"])...)
 		big := r.alloc > allocBound(len(stream), max)
 		obs[i] = "msgs=" + msgsString(r.msgs) + " end=" + r.end + " big=" + b01(big)
 	}
@@ -389,6 +392,29 @@ func genReader(r *Rng, n int, tier string) []Case {
 		}
 		cases = append(cases, Case{ID: fmt.Sprintf("reader-%d", i+1), Ops: []string{
 			fmt.Sprintf("stream max=%d frag=%s b=%s", max, genFrags(r), strings.Join(chunks, ","))}})
+	}
+	// slow blocks: a piece message whose block arrives in 2–5 bursts with the read deadline expiring in between,
+	// followed by two more frames that must be decoded from the right position
+	for i := 0; i < n/8+3; i++ {
+		bl := r.Pick(2, 3, 16, 100, 1000, 16383, 16384)
+		block := r.Bytes(bl)
+		body := make([]byte, 8, 8+bl)
+		binary.BigEndian.PutUint32(body, uint32(r.Intn(1000)))
+		binary.BigEndian.PutUint32(body[4:], uint32(r.Intn(4))*16384)
+		all := refFrame(7, append(body, block...))
+		all = append(all, genValidFrame(r)...)
+		all = append(all, genValidFrame(r)...)
+		seen := map[int]bool{}
+		var cuts []string
+		for k := r.Range(1, 4); k > 0 && bl > 1; k-- {
+			c := 13 + r.Range(1, bl-1)
+			if !seen[c] {
+				seen[c] = true
+				cuts = append(cuts, fmt.Sprint(c))
+			}
+		}
+		cases = append(cases, Case{ID: fmt.Sprintf("reader-slow-%d", i+1), Ops: []string{
+			fmt.Sprintf("stream max=%d frag=%s b=%s cuts=%s", 1<<20, genFrags(r), hexs(all), joinOrDash(cuts))}})
 	}
 	return cases
 }
